@@ -6,7 +6,22 @@ namespace Vore
 
 /-- the scope holds only captures and there are no global patterns -/
 def ScopeOK (st : GenState) : Prop :=
-  st.globals = [] ∧ ∀ x v, lookup st.variables x = some v → v = none
+  st.globals = [] ∧ ∀ kv ∈ st.variables, kv.2 = none
+
+theorem ScopeOK.lookup {st : GenState} (h : ScopeOK st) (x : String) (v : Option Nat)
+    (hl : lookup st.variables x = some v) : v = none := by
+  unfold Vore.lookup at hl
+  cases hf : List.find? (fun kv => kv.1 == x) st.variables with
+  | none => rw [hf] at hl; simp at hl
+  | some kv =>
+    rw [hf] at hl
+    simp only [Option.map_some, Option.some.injEq] at hl
+    rw [← hl]
+    exact h.2 kv (List.mem_of_find?_eq_some hf)
+
+theorem ScopeOK.forget {st : GenState} (h : ScopeOK st) (outer : List (String × Option Nat)) :
+    ScopeOK (forgetCaptures outer st) :=
+  ⟨h.1, fun kv hkv => h.2 kv ((List.mem_filter.mp hkv).1)⟩
 
 theorem lookup_insertKV {α} (l : List (String × α)) (k x : String) (v : α) :
     lookup (insertKV l k v) x = if k == x then some v else lookup l x := by
@@ -34,11 +49,11 @@ theorem lookup_insertKV {α} (l : List (String × α)) (k x : String) (v : α) :
 theorem ScopeOK.insert_capture {st : GenState} (h : ScopeOK st) (name : String) :
     ScopeOK { st with variables := insertKV st.variables name none } := by
   refine ⟨h.1, ?_⟩
-  intro x v hv
-  simp only [lookup_insertKV] at hv
-  split at hv
-  · simpa using hv.symm
-  · exact h.2 x v hv
+  intro kv hkv
+  simp only [insertKV, List.mem_cons] at hkv
+  rcases hkv with rfl | hkv
+  · rfl
+  · exact h.2 kv ((List.mem_filter.mp hkv).1)
 
 theorem genRepeat_eq (g : Nat → GenState → GenM (List Instr × GenState)) (gc : Nat → Nat → List Instr × Nat)
     (hg : ∀ off st code st', ScopeOK st → g off st = .ok (code, st') →
@@ -110,7 +125,7 @@ theorem gen_eq_genCF (e : Expr) (hcf : CallFree e) : ∀ off st code st', ScopeO
     simp only [gen] at h
     cases hl : lookup st.variables x with
     | some v =>
-      have := hs.2 x v hl
+      have := hs.lookup x v hl
       subst this
       simp only [hl, Except.ok.injEq, Prod.mk.injEq] at h
       obtain ⟨rfl, rfl⟩ := h
@@ -123,6 +138,10 @@ theorem gen_eq_genCF (e : Expr) (hcf : CallFree e) : ∀ off st code st', ScopeO
     obtain ⟨hname, hcb⟩ := hcf
     subst hname
     have hg := fun off st code st' hs h => ih hcb off st code st' hs h
+    have hg' : ∀ off' (s : GenState) code st', ScopeOK s →
+        (fun o s => gen body o (forgetCaptures st.variables s)) off' s = .ok (code, st') →
+        code = (genCF body off' s.nextId).1 ∧ st'.nextId = (genCF body off' s.nextId).2 ∧ ScopeOK st' :=
+      fun off' s code st' hs' h' => ih hcb off' (forgetCaptures st.variables s) code st' (hs'.forget _) h'
     simp only [gen, bind, Except.bind, beq_self_eq_true, Bool.and_true, pure, Except.pure, gt_iff_lt] at h
     -- the two ways the loop code is assembled once the prefix is known to be `repCF`
     have fin_eq : ∀ (pre : List Instr) (st1 : GenState), (mn : Int) = mx →
@@ -136,7 +155,7 @@ theorem gen_eq_genCF (e : Expr) (hcf : CallFree e) : ∀ off st code st', ScopeO
       exact ⟨hpc, hpn, hps⟩
     have fin_ne : ∀ (pre : List Instr) (st1 : GenState) (cb : List Instr) (st2 : GenState), ¬ (mn : Int) = mx →
         pre = (repCF (genCF body) mn off st.nextId).1 → st1.nextId = (repCF (genCF body) mn off st.nextId).2 →
-        ScopeOK st1 → gen body (off + pre.length + 1) st1 = .ok (cb, st2) →
+        ScopeOK st1 → gen body (off + pre.length + 1) (forgetCaptures st.variables st1) = .ok (cb, st2) →
         (pre ++ Instr.startLoop st2.nextId 0 (if 0 < mx then mx - ↑mn else mx) fewest
             (off + pre.length + cb.length + 1) "" :: (cb ++ [Instr.stopLoop st2.nextId (off + pre.length)])) =
           (genCF (.loop mn mx fewest "" body) off st.nextId).1 ∧
@@ -144,22 +163,24 @@ theorem gen_eq_genCF (e : Expr) (hcf : CallFree e) : ∀ off st code st', ScopeO
       intro pre st1 cb st2 heq hpc hpn hps hb2
       have heq' : ((mn : Int) == mx) = false := by simpa using heq
       simp only [genCF, heq', Bool.false_eq_true, if_false]
-      obtain ⟨hcb', hnb, hsb⟩ := hg _ _ _ _ hps hb2
+      obtain ⟨hcb', hnb, hsb⟩ := hg _ _ _ _ (hps.forget _) hb2
+      have hnid : (forgetCaptures st.variables st1).nextId = st1.nextId := rfl
+      rw [hnid] at hcb' hnb
       rw [← hpc, ← hpn, ← hcb', ← hnb]
       exact ⟨by simp [loopMax], rfl, hsb⟩
     by_cases hmn : 0 < mn
-    · cases hp : genRepeat (gen body) mn off st with
+    · cases hp : genRepeat (fun o s => gen body o (forgetCaptures st.variables s)) mn off st with
       | error e => simp [hmn, hp] at h
       | ok rp =>
         obtain ⟨pre, st1⟩ := rp
-        obtain ⟨hpc, hpn, hps⟩ := genRepeat_eq (gen body) (genCF body) hg mn off st pre st1 hs hp
+        obtain ⟨hpc, hpn, hps⟩ := genRepeat_eq _ (genCF body) hg' mn off st pre st1 hs hp
         by_cases heq : (mn : Int) = mx
         · have heqb : ((mn : Int) == mx) = true := by simpa using heq
           simp only [hmn, hp, heqb, decide_true, if_true, Except.ok.injEq, Prod.mk.injEq] at h
           obtain ⟨rfl, rfl⟩ := h
           exact fin_eq _ _ heq hpc hpn hps
         · have heqb : ((mn : Int) == mx) = false := by simpa using heq
-          cases hb2 : gen body (off + pre.length + 1) st1 with
+          cases hb2 : gen body (off + pre.length + 1) (forgetCaptures st.variables st1) with
           | error e => simp [hmn, hp, heqb, hb2] at h
           | ok vb =>
             obtain ⟨cb, st2⟩ := vb
@@ -179,7 +200,7 @@ theorem gen_eq_genCF (e : Expr) (hcf : CallFree e) : ∀ off st code st', ScopeO
         exact fin_eq [] st heq (by simp [repCF]) (by simp [repCF]) hs
       · have heqb : (((0 : Nat) : Int) == mx) = false := by simpa using heq
         have heq0 : ¬ (0 : Int) = mx := by simpa using heq
-        cases hb2 : gen body (off + 1) st with
+        cases hb2 : gen body (off + 1) (forgetCaptures st.variables st) with
         | error e => simp [heq0, hb2] at h
         | ok vb =>
           obtain ⟨cb, st2⟩ := vb
